@@ -303,6 +303,16 @@ def rule_expansion(ctx, F):
                               fn=it.path, file=it.file, line=it.blocks[bi]["line"])
     if singles != 2:
         raise Unrecognised(rule, f"{singles} single-token arms recognised, expected 2", it.path, it.line)
+    # the expansion must not look at the weight except to copy it: a branch on the weight drops or alters combos of
+    # tokens with particular weights (e.g. ':0' tokens that must still overwrite earlier ones)
+    for b in sorted(it.cfg.reachable):
+        t = it.blocks[b]["term"]
+        if t["k"] == "switch":
+            on = pr.operand(t["on"])
+            if any(spec(x) == "weight" for x in P.walk(on) if x[0] == "field"):
+                ctx.violation(rule, f"{it.path}|branch-on-weight", "token expansion branches on the token's weight: tokens with some weights "
+                              "expand differently (or not at all)", fn=it.path, file=it.file, line=it.blocks[b]["line"],
+                              construct="condition on self.probability in HandRangeToken::into_iter")
 
 
 def rule_range_parser(ctx, F):
@@ -395,5 +405,14 @@ def run(ctx):
             f()
         except Unrecognised as e:
             ctx.unrecognised(e.rule if e.rule.startswith("C05") else "C05." + e.rule, e.msg, e.fn, e.line)
+    # 'AsKs that single combo in either card order': card-pair tokens must go through the normalising constructor (C14's rules)
+    try:
+        from rules import c14
+        from sa.report import FilterCtx
+        fc = FilterCtx(ctx, ["who-may-construct", "canonical-order"])
+        c14.rule_construct(fc, F, prefix="C05")
+        c14.rule_new(fc, F, prefix="C05")
+    except Unrecognised as e:
+        ctx.unrecognised("C05." + e.rule.split(".", 1)[-1], e.msg, e.fn, e.line)
     ctx.assume("RankRange::inclusive(a, b) yields the ranks from a to b inclusive in ace-to-deuce order (C13)")
     ctx.assume("the weight parser returns the tail's value or 1 (C10); regex::Regex::is_match implements the regex semantics")
